@@ -21,3 +21,21 @@ Lemma call_order_as_modelled :
   calls_validateRFC3339 = [b "time.Parse"] /\
   calls_validateMediaType = [b "mediaTypeRegexp.MatchString"].
 Proof. repeat split; reflexivity. Qed.
+
+(* The struct tags encoding/json works from (gosrc2v kind "jsontags": spec.Artifact from the repository,
+   Manifest / Versioned / Descriptor / Platform from image-spec in the module cache at the version go.mod
+   requires): names, order and omitempty are those Model/PackEnc.v writes (json_manifest, json_desc,
+   json_platform).  A bumped image-spec or an edited Artifact struct breaks this lemma. *)
+Lemma json_tags_as_modelled :
+  Artifact_json_tags =
+    [(b "mediaType", false); (b "artifactType", false); (b "blobs", true); (b "subject", true); (b "annotations", true)] /\
+  Manifest_json_tags =
+    [(b "<embedded specs.Versioned>", false); (b "mediaType", true); (b "artifactType", true); (b "config", false);
+     (b "layers", false); (b "subject", true); (b "annotations", true)] /\
+  Versioned_json_tags = [(b "schemaVersion", false)] /\
+  Descriptor_json_tags =
+    [(b "mediaType", false); (b "digest", false); (b "size", false); (b "urls", true); (b "annotations", true);
+     (b "data", true); (b "platform", true); (b "artifactType", true)] /\
+  Platform_json_tags =
+    [(b "architecture", false); (b "os", false); (b "os.version", true); (b "os.features", true); (b "variant", true)].
+Proof. repeat split; reflexivity. Qed.
